@@ -85,6 +85,22 @@ func callWithArithLocal(info *types.Info, e ast.Expr, defs map[types.Object]loca
 	return false
 }
 
+func isComparison(e ast.Expr) bool {
+	e = ast.Unparen(e)
+	if u, ok := e.(*ast.UnaryExpr); ok && u.Op == token.NOT {
+		return isComparison(u.X)
+	}
+	be, ok := e.(*ast.BinaryExpr)
+	if !ok {
+		return false
+	}
+	switch be.Op {
+	case token.EQL, token.NEQ, token.LSS, token.LEQ, token.GTR, token.GEQ:
+		return true
+	}
+	return false
+}
+
 func hasBoolOp(e ast.Expr) bool {
 	found := false
 	ast.Inspect(e, func(n ast.Node) bool {
@@ -202,6 +218,43 @@ func boolNNF(info *types.Info, e ast.Expr, defs map[types.Object]localDef, neg b
 				return "true"
 			}
 			return "false"
+		}
+	}
+	// a call of a one-line boolean function of the package is, in the resolved forms, the condition it returns
+	// (IsSurroundVote(a, b) || IsDoubleVote(a, b) and the two conditions written out are the same predicate)
+	if call, ok := e.(*ast.CallExpr); ok && defs != nil && polyInline != nil && len(polyInlining) < 3 {
+		if f := calleeFunc(info, call); f != nil {
+			if hd, ok := polyInline[f]; ok && hd.info == info && hd.defs == nil && !polyInlining[f] {
+				if b, ok := info.TypeOf(hd.ret).Underlying().(*types.Basic); ok && b.Kind() == types.Bool && (hasBoolOp(hd.ret) || isComparison(hd.ret)) {
+					saved := polyArgs
+					merged := map[types.Object]ast.Expr{}
+					for k, v := range saved {
+						merged[k] = v
+					}
+					i, okArgs := 0, true
+					for _, fl := range hd.fd.Type.Params.List {
+						for _, nm := range fl.Names {
+							if i < len(call.Args) && substitutable(call.Args[i]) {
+								merged[info.Defs[nm]] = call.Args[i]
+							} else {
+								okArgs = false
+							}
+							i++
+						}
+					}
+					if hd.fd.Recv != nil {
+						okArgs = false
+					}
+					if okArgs && i == len(call.Args) {
+						polyArgs = merged
+						polyInlining[f] = true
+						s := boolNNF(info, hd.ret, defs, neg, depth+1)
+						delete(polyInlining, f)
+						polyArgs = saved
+						return s
+					}
+				}
+			}
 		}
 	}
 	atom := ""
@@ -668,6 +721,7 @@ func formulasIn(pk *packages.Package, fd *ast.FuncDecl, fn string, subst map[typ
 		}
 		polyArgs = saved
 	}
+	cmpOperands := 0
 	ast.Inspect(fd.Body, func(n ast.Node) bool {
 		switch x := n.(type) {
 		case *ast.AssignStmt:
@@ -723,6 +777,18 @@ func formulasIn(pk *packages.Package, fd *ast.FuncDecl, fn string, subst map[typ
 						add(fmt.Sprintf("call:%s#%d", fobj.Name(), i), token.ASSIGN, nil, a, x.Pos())
 					}
 					liftHelper(a, fmt.Sprintf("call:%s#%d", fobj.Name(), i), nil, x.Pos())
+				}
+			}
+		case *ast.BinaryExpr:
+			// a value computed inside a comparison (`if (b>>(p&7))&1 == 1`): it has no name, but a formula whose own
+			// target is gone can still be found here
+			switch x.Op {
+			case token.EQL, token.NEQ, token.LSS, token.LEQ, token.GTR, token.GEQ:
+				for _, o := range []ast.Expr{x.X, x.Y} {
+					if hasArith(o) {
+						cmpOperands++
+						add(fmt.Sprintf("cmp#%d", cmpOperands), token.ASSIGN, nil, o, o.Pos())
+					}
 				}
 			}
 		case *ast.ReturnStmt:
@@ -1129,6 +1195,11 @@ func ruleFormulaSpec(c *Ctx) {
 							at = sv.pos
 						}
 					}
+					// renamed locals: the type-named forms
+					if (k < len(e.abs) && sv.abs == e.abs[k]) || (k < len(e.ra) && e.ra[k] != "~" && sv.ra == e.ra[k]) {
+						found = true
+						at = sv.pos
+					}
 				}
 				if !found {
 					allFound = false
@@ -1174,6 +1245,40 @@ func ruleFormulaSpec(c *Ctx) {
 					verdicts[i] = verdict{"ok", how, hf.pos, e.spec + " (computed in a helper)" + note[how]}
 					continue
 				}
+			}
+			// the function merely hands the work to an unexported helper of the package (`return helper(args)`) whose
+			// own formulas did not match either: what the helper computes is not related to the reviewed formula by
+			// this rule — undecided, not a different formula
+			delegates := len(f.named) > 0
+			for _, nm := range f.named {
+				body := strings.TrimPrefix(nm, "= ")
+				j := strings.Index(body, "(")
+				if j <= 0 || !strings.HasSuffix(body, ")") {
+					delegates = false
+					break
+				}
+				name := body[:j]
+				pkgName := e.fn
+				if k := strings.Index(pkgName, "."); k >= 0 {
+					pkgName = pkgName[:k]
+				}
+				if _, isHelper := formulaDecls[pkgName+"."+name]; !isHelper || !(name[0] >= 'a' && name[0] <= 'z') {
+					// (methods are keyed Type.name)
+					found := false
+					for k := range formulaDecls {
+						if strings.HasPrefix(k, pkgName+".") && strings.HasSuffix(k, "."+name) && name[0] >= 'a' && name[0] <= 'z' {
+							found = true
+						}
+					}
+					if !found {
+						delegates = false
+						break
+					}
+				}
+			}
+			if delegates {
+				verdicts[i] = verdict{status: "missing", pos: f.pos, msg: fmt.Sprintf("%s hands %s to an unexported helper whose formulas this rule cannot relate to the reviewed one {%s} (%s)", e.fn, e.target, strings.Join(e.named, " ; "), e.spec)}
+				continue
 			}
 			// or under another name in the function or a helper of it (the local was re-purposed)
 			verdicts[i] = verdict{"bad", "", f.pos, fmt.Sprintf("%s computes %s as {%s}; in canonical form that is {%s}, the reviewed formula is {%s} — spec: %s", e.fn, e.target, strings.Join(f.texts, " ; "), strings.Join(f.named, " ; "), strings.Join(e.named, " ; "), e.spec)}
